@@ -913,7 +913,7 @@ def rule_tyrule(ctx):
     def base_ctx():
         return Adt(F + "context::TypingContext", "TypingContext", {"span": Sym("ctxspan"), "bindings": Vec([binding("x", "Prd", decl("TX")), binding("a", "Cns", decl("TA"))])})
 
-    def run(form, fields):
+    def run(form, fields, several=False):
         adt = F + "terms::" + form
         key = "<%s as fun::typing::check::Check>::check" % adt
         f = fx.fn(key)
@@ -948,7 +948,7 @@ def rule_tyrule(ctx):
                 # which declared type the (co)constructor of that name belongs to
                 p.events.append(("owner-of", I.deref(args[2])))
                 own = decl("OWNER")
-                okv = Adt(None, None, {"0": own, "1": Vec([])}) if fr.f["locals"][t["dest"]["l"]]["ty"].count("(") and "Vec" in fr.f["locals"][t["dest"]["l"]]["ty"] else own
+                okv = Adt(None, None, {"0": own, "1": Vec(list(fields.get("__declared__", [])))}) if fr.f["locals"][t["dest"]["l"]]["ty"].count("(") and "Vec" in fr.f["locals"][t["dest"]["l"]]["ty"] else own
                 return Adt("core::result::Result", "Ok", {"0": okv})
             return NotImplemented
         A = fx.adts[adt]
@@ -960,9 +960,10 @@ def rule_tyrule(ctx):
             st_fields[tn] = tv
         st = Adt("fun::typing::symbol_table::SymbolTable", "SymbolTable", st_fields)
         I = Interp(fx, hooks=[hook], max_depth=4, max_paths=64)
-        outs = I.run(f, [Adt(adt, A["variants"][0]["name"], vals), st, base_ctx(), decl("EXP")])
-        msg = backend.fold_verdict(outs, "R-TYRULE: %s" % form)
-        outs = [o for o in outs if not getattr(o, "diverged", None)]
+        outs = I.run(f, [Adt(adt, A["variants"][0]["name"], vals), st, base_ctx(), fields.get("__expected__", decl("EXP"))])
+        normal = [o for o in outs if not getattr(o, "diverged", None)]
+        msg = None if (several and normal) else backend.fold_verdict(outs, "R-TYRULE: %s" % form)
+        outs = normal
         return f, outs, msg
 
     def judge(form, fields, want, label="", want_err=False):
@@ -1037,6 +1038,84 @@ def rule_tyrule(ctx):
     judge("constructor::Constructor", {"id": "K", "__table__": {"ctors": MapVal([("J", sig_ctx)])}}, [], ":undefined", want_err=True)
     judge("destructor::Destructor", {"id": "d", "type_args": noargs, "__table__": {"dtors": MapVal([("d", Adt(None, None, {"0": sig_ctx, "1": decl("RET")}))])}},
           [("owner-of", "d"), chk("scrutinee", BASE, "decl:OWNER"), ("args", BASE, (("p", "Prd", "decl:TP"),)), eq(EXP, "decl:RET")])
+    # pattern and copattern matches: exactly one clause per xtor of the type, whatever the order they are written in; the checked
+    # clause list is in declaration order; each body is checked at the right type with the clause's binders added
+    POL = F + "declarations::Polarity"
+    pol_path = POL if POL in fx.adts else next((a for a in fx.adts if a.startswith("fun::") and a.endswith("::Polarity")), POL)
+
+    def clause(xtor, binders, pol, tag):
+        return Adt(F + "terms::clause::Clause", "Clause", {
+            "span": Sym("clspan"), "pol": Adt(pol_path, pol, {}), "xtor": xtor,
+            "context_names": Adt(F + "context::NameContext", "NameContext", {"span": NONE, "bindings": Vec(list(binders))}),
+            "context": Adt(F + "context::TypingContext", "TypingContext", {"span": Sym("s"), "bindings": Vec([])}),
+            "body": Sym("body:%s" % tag)})
+    sigA = Adt(F + "context::TypingContext", "TypingContext", {"span": Sym("sa"), "bindings": Vec([])})
+    sigB = Adt(F + "context::TypingContext", "TypingContext", {"span": Sym("sb"), "bindings": Vec([binding("p", "Prd", decl("TP"))])})
+    import itertools as _it
+    shapes = [seq for n_ in range(0, 4) for seq in _it.product("ABC", repeat=n_)]
+
+    def clause_list(seq, pol):
+        return Vec([clause(x, ["u"] if x == "B" else [], pol, "%s%d" % (x, i)) for i, x in enumerate(seq)])
+    for form, pol, table_key in (("case::Case", "Data", "ctors"), ("new::New", "Codata", "dtors")):
+        n_acc = 0
+        for seq in shapes:
+            fields = {"clauses": clause_list(seq, pol), "__declared__": ["A", "B"]}
+            if form == "case::Case":
+                fields["type_args"] = noargs
+                fields["__table__"] = {"ctors": MapVal([("A", sigA), ("B", sigB)])}
+            else:
+                fields["__expected__"] = decl("OWNER")
+                fields["__table__"] = {"dtors": MapVal([("A", Adt(None, None, {"0": sigA, "1": decl("RA")})), ("B", Adt(None, None, {"0": sigB, "1": decl("RB")}))]),
+                                       "types": MapVal([("OWNER", Adt(None, None, {"0": Adt(pol_path, "Codata", {}), "1": Vec([]), "2": Vec(["A", "B"])}))])}
+            f, outs, msg = run(form, fields, several=True)
+            nonlocal_n[0] += 1
+            label = "%s{%s}" % (form.split("::")[-1], ",".join(seq))
+            if msg:
+                res.inst(label, f["sp"]["file"], f["sp"]["line"], "violation")
+                res.violate(label, msg, f["sp"]["file"], f["sp"]["line"])
+                continue
+            oks = [o for o in outs if isinstance(o.result, Adt) and o.result.variant == "Ok"]
+            errs = [o for o in outs if isinstance(o.result, Adt) and o.result.variant == "Err"]
+            if len(oks) + len(errs) != len(outs) or not outs or (oks and len(outs) != 1):
+                # several paths that all reject are a rejection (how the diagnostic is worded may depend on values the analysis cannot follow)
+                raise AnalysisError("R-TYRULE: %s does not fold to one Ok result or to Err results only (%d paths, %d Ok)" % (label, len(outs), len(oks)))
+            should = sorted(seq) == ["A", "B"]
+            if bool(oks) != should:
+                res.inst(label, f["sp"]["file"], f["sp"]["line"], "violation")
+                res.violate(label, "a %s with clauses for %s over a type whose xtors are A, B is %s; the rule %s it (one clause for each xtor of the type, none "
+                            "twice, none of another type)" % ("case" if pol == "Data" else "new", list(seq) or "no xtor at all", "accepted" if oks else "rejected",
+                                                               "rejects" if oks else "accepts"), f["sp"]["file"], f["sp"]["line"])
+                continue
+            if not should:
+                res.inst(label, f["sp"]["file"], f["sp"]["line"], "ok", "rejected")
+                continue
+            n_acc += 1
+            o = oks[0]
+            node = o.result.fields["0"]
+            I_ = Interp(fx)
+            cls = node.fields.get("clauses")
+            order = [c.fields.get("xtor") for c in cls.items] if isinstance(cls, Vec) else None
+            problems = []
+            if order != ["A", "B"]:
+                problems.append("the checked clauses are in the order %s, not in the order of the declaration (A, B) that the jump tables are built from" % (order,))
+            bodies = {e[1]: e for e in o.events if e[0] == "check" and str(e[1]).startswith("body:")}
+            for i, x in enumerate(seq):
+                e = bodies.get("body:%s%d" % (x, i))
+                want_ctx = BASE + ((("u", "Prd", "decl:TP"),) if x == "B" else ())
+                want_ty = EXP if form == "case::Case" else ("decl:RA" if x == "A" else "decl:RB")
+                if e is None:
+                    problems.append("the body of the clause for %s is never checked" % x)
+                elif e[2] != want_ctx or e[3] != want_ty:
+                    problems.append("the body of the clause for %s is checked in %s at %s, the rule says in %s at %s" % (x, e[2], e[3], want_ctx, want_ty))
+            if form == "case::Case" and not any(e[0] == "check" and e[1] == "self.scrutinee" and e[3] == "decl:OWNER" for e in o.events):
+                problems.append("the scrutinee is not checked at the type the constructors belong to")
+            if problems:
+                res.inst(label, f["sp"]["file"], f["sp"]["line"], "violation")
+                res.violate(label, "%s with clauses %s: %s" % (form.split("::")[-1], list(seq), "; ".join(problems[:2])), f["sp"]["file"], f["sp"]["line"])
+            else:
+                res.inst(label, f["sp"]["file"], f["sp"]["line"], "ok", "accepted, clauses in declaration order, bodies checked with their binders")
+        if n_acc != 2:
+            raise AnalysisError("R-TYRULE: %s: %d accepted clause lists folded (2 expected: A,B and B,A)" % (form, n_acc))
     res.require_floor(18)
     return res
 
@@ -1174,9 +1253,9 @@ def rule_keyed(ctx):
     res = RuleResult("R-KEYED", "no typing rule (a Check::check impl, its closures, check_args) gathers clauses, arguments or binders of the "
                      "term it checks into a HashMap/BTreeMap/HashSet/BTreeSet by collect / from_iter / extend: a keyed collection merges "
                      "entries with equal keys without a word, so a duplicated clause or binder vanishes before anything can reject it "
-                     "(duplicates are rejected by no_dups and by the leftover-clauses test over the original lists); in Case and New the "
-                     "checked clause list is built by a loop over the xtors of the declaration, not over the clauses as written "
-                     "(every later stage and the jump tables rely on declaration order)")
+                     "(duplicates are rejected by no_dups and by the leftover-clauses test over the original lists). What Case and New "
+                     "accept, and the order of their checked clauses, is decided by R-TYRULE; this rule is the structural backstop for "
+                     "code the fold cannot follow")
     n = 0
     for k, f in sorted(fx.fns.items()):
         if f["crate"] != "fun" or "{promoted" in k:
@@ -1212,43 +1291,6 @@ def rule_keyed(ctx):
                         (base.split(" as ")[0].lstrip("<").split("::")[-1], ".".join(s[1]) or "a part", t.get("callee_name"), t["sp"]["line"]), t["sp"]["file"], t["sp"]["line"])
         else:
             res.inst(ikey, fn.file, fn.line, "ok", nontrivial=False)
-    # clause order: the checked clause vector of Case / New
-    from .. import prov
-    n_ord = 0
-    for k, f in sorted(fx.fns.items()):
-        if f["crate"] != "fun" or "{" in k.split(">::")[-1] or not (f.get("impl_trait") or "").endswith("typing::check::Check") or not k.endswith("::check"):
-            continue
-        fn = Fn(f)
-        flow = None
-        for bi, si, s in fn.stmts():
-            if s["lhs"]["l"] != 1 or "clauses" not in place_fields(s["lhs"]) or s["rv"]["k"] not in ("use",):
-                continue
-            flow = flow or prov.make_flow(fn, fx, extra_names=())
-            pflow = Flow(fn)
-            roots = prov.collection_roots(fn, flow, s["rv"]["op"], fx=fx)
-            n_ord += 1
-            ikey = "%s:clause-order" % k
-            why = None
-            for r in roots:
-                body = r[1:] if r[0] == "loop" else r
-                if r[0] != "loop":
-                    why = "is not built by a loop (%s)" % (r[0],)
-                elif body[0] == "arg" and body[1] == 1:
-                    why = "is built by a loop over the node's own `%s`" % ".".join(body[2])
-                elif body[0] == "call":
-                    tc = fn.term(body[1])
-                    srcs = set()
-                    for a in tc["args"]:
-                        srcs |= _sequence_sources(fn, pflow, op_root(a))
-                    if any(s_[0] == 1 and "clauses" in s_[1] for s_ in srcs):
-                        why = "is built by a loop over the clauses as written (through %s)" % tc.get("callee_name")
-            if why:
-                res.inst(ikey, s["sp"]["file"], s["sp"]["line"], "violation")
-                res.violate(ikey, "%s: the checked clause list %s instead of over the xtors of the declaration: clauses written in another order than the "
-                            "declaration stay in that order, and the jump table built from them sends each tag to the wrong clause" %
-                            (k.split(" as ")[0].lstrip("<").split("::")[-1], why), s["sp"]["file"], s["sp"]["line"])
-            else:
-                res.inst(ikey, s["sp"]["file"], s["sp"]["line"], "ok", "loop over the declaration's xtor list")
-    if n < 15 or n_ord < 2:
-        raise AnalysisError("R-KEYED: %d typing rules and %d checked clause lists found (15 / 2 expected at least)" % (n, n_ord))
+    if n < 15:
+        raise AnalysisError("R-KEYED: only %d typing rules found (15 expected at least)" % n)
     return res
